@@ -192,6 +192,43 @@ func c12Guti(c *core.Ctx, k *core.Case) {
 	if ts.GetAMFSetID() != set || ts.GetAMFPointer() != ptr || uint32(tm2[0])<<24|uint32(tm2[1])<<16|uint32(tm2[2])<<8|uint32(tm2[3]) != tmsi {
 		c.Fail(k, "stmsi-accessors", fmt.Sprintf("TMSI5GS accessors on %x: set %#x ptr %#x", sw, ts.GetAMFSetID(), ts.GetAMFPointer()))
 	}
+	// the same identities built through the setters, in every order of the three AMF / TMSI fields
+	tmsiArr := [4]uint8{byte(tmsi >> 24), byte(tmsi >> 16), byte(tmsi >> 8), byte(tmsi)}
+	for order := 0; order < 6; order++ {
+		var b1 nasType.TMSI5GS
+		var b2 nasType.GUTI5G
+		copy(b1.Octet[:], sw) // start from the identity itself with the three fields cleared or dirty
+		copy(b2.Octet[:], wire)
+		if order%2 == 1 {
+			b1.Octet[1], b1.Octet[2] = 0xff, 0xff
+			b2.Octet[5], b2.Octet[6] = 0xff, 0xff
+		} else {
+			b1.Octet[1], b1.Octet[2] = 0, 0
+			b2.Octet[5], b2.Octet[6] = 0, 0
+		}
+		steps := [][3]int{{0, 1, 2}, {0, 2, 1}, {1, 0, 2}, {1, 2, 0}, {2, 0, 1}, {2, 1, 0}}[order]
+		for _, st := range steps {
+			switch st {
+			case 0:
+				b1.SetAMFSetID(set)
+				b2.SetAMFSetID(set)
+			case 1:
+				b1.SetAMFPointer(ptr)
+				b2.SetAMFPointer(ptr)
+			case 2:
+				b1.SetTMSI5G(tmsiArr)
+				b2.SetTMSI5G(tmsiArr)
+			}
+		}
+		if !bytes.Equal(b1.Octet[:], sw) {
+			c.Fail(k, "stmsi-setters", fmt.Sprintf("TMSI5GS built with the setters in order %v (0 set id, 1 pointer, 2 TMSI; fields %s before) = %x, layout %x", steps, []string{"zero", "all ones"}[order%2], b1.Octet, sw))
+			break
+		}
+		if !bytes.Equal(b2.Octet[:], wire) {
+			c.Fail(k, "guti-setters", fmt.Sprintf("GUTI5G built with the setters in order %v (0 set id, 1 pointer, 2 TMSI; fields %s before) = %x, layout %x", steps, []string{"zero", "all ones"}[order%2], b2.Octet, wire))
+			break
+		}
+	}
 	mi2 := nasType.NewMobileIdentity5GS(0)
 	mi2.SetLen(7)
 	mi2.SetMobileIdentity5GSContents(sw)
@@ -369,6 +406,64 @@ func c12Series(c *core.Ctx, k *core.Case) {
 	c.Count("series", 1)
 }
 
+// oracle "shared-input": I=[seed, workers, iterations] — several goroutines convert the SAME
+// wire octets (one received identity looked at by several handlers) at the same time. The
+// conversions are functions of their argument: every result must be the text of that
+// identity, and the octets must be unchanged afterwards.
+func c12SharedInput(c *core.Ctx, k *core.Case) {
+	r := prng.New(uint64(k.I[0]))
+	g, iters := int(k.I[1]), int(k.I[2])
+	mcc, mnc := digits(r, 3), digits(r, 2+r.Intn(2))
+	amf, tmsi := r.Uint32()&0xffffff, r.Uint32()
+	rid, msin := digits(r, 1+r.Intn(4)), digits(r, 5+r.Intn(6))
+	guti, gutiText := refconv.GutiWire(mcc, mnc, amf, tmsi), refconv.GutiText(mcc, mnc, amf, tmsi)
+	suci, suciText := refconv.SuciWire(mcc, mnc, rid, 0, 0, msin, nil), refconv.SuciText(mcc, mnc, rid, 0, 0, msin, nil)
+	pd := digits(r, 15)
+	pei, peiText := refconv.PeiWire(pd, false), refconv.PeiText(pd, false)
+	pw := refconv.PlmnWire(mcc, mnc)
+	plmn := pw[:]
+	snap := [][]byte{cloneB(guti), cloneB(suci), cloneB(pei), cloneB(plmn)}
+	mi := nasType.NewMobileIdentity5GS(0)
+	mi.SetLen(uint16(len(suci)))
+	mi.SetMobileIdentity5GSContents(suci) // shares the octets with the conversions below
+	msgs := concurrentProbe(g, iters, func(w, i int) string {
+		switch (w + i) % 5 {
+		case 0:
+			if _, s, err := nasConvert.GutiToStringWithError(guti); err != nil || s != gutiText {
+				return fmt.Sprintf("GutiToStringWithError on shared octets %x = %q, %v; want %q", snap[0], s, err, gutiText)
+			}
+		case 1:
+			if s, p, err := nasConvert.SuciToStringWithError(suci); err != nil || s != suciText || p != mcc+mnc {
+				return fmt.Sprintf("SuciToStringWithError on shared octets %x = %q, %q, %v; want %q", snap[1], s, p, err, suciText)
+			}
+		case 2:
+			if s, err := nasConvert.PeiToStringWithError(pei); err != nil || s != peiText {
+				return fmt.Sprintf("PeiToStringWithError on shared octets %x = %q, %v; want %q", snap[2], s, err, peiText)
+			}
+		case 3:
+			if s := nasConvert.PlmnIDToString(plmn); s != mcc+mnc {
+				return fmt.Sprintf("PlmnIDToString on shared octets %x = %q; want %q", snap[3], s, mcc+mnc)
+			}
+		case 4:
+			if s := mi.GetSUCI(); s != suciText {
+				return fmt.Sprintf("MobileIdentity5GS.GetSUCI on shared octets = %q; want %q", s, suciText)
+			}
+		}
+		return ""
+	})
+	c.Eval(int64(g * iters))
+	c.Count("shared_input_calls", int64(g*iters))
+	if len(msgs) > 0 {
+		c.Fail(k, "shared-input-concurrent-mismatch", fmt.Sprintf("%d workers reading the same octets: %s", g, msgs[0]))
+		return
+	}
+	for i, b := range [][]byte{guti, suci, pei, plmn} {
+		if !bytes.Equal(b, snap[i]) {
+			c.Fail(k, "input-mutated:shared", fmt.Sprintf("the shared octets changed: %x -> %x", snap[i], b))
+		}
+	}
+}
+
 // oracle "invalid": S=[function, text] — invalid text must be reported as an error
 func c12Invalid(c *core.Ctx, k *core.Case) {
 	fn, txt := k.S[0], k.S[1]
@@ -394,7 +489,7 @@ func init() {
 			"reference renderers/builders written from TS 24.501 9.11.3.4, TS 24.008 10.5.1.3 and TS 23.003 (AMF id = region 8 || set 10 || pointer 6)",
 			"hex text is lower case as the library emits it; upper-case input must convert to the same octets",
 		},
-		Oracles: map[string]func(*core.Ctx, *core.Case){"cold-concurrent": coldConcurrent, "plmn": c12Plmn, "plmn-one": c12PlmnOne, "amf": c12Amf, "guti": c12Guti, "suci": c12Suci, "nai": c12Nai, "pei": c12Pei, "invalid": c12Invalid, "ident-series": c12Series},
+		Oracles: map[string]func(*core.Ctx, *core.Case){"cold-concurrent": coldConcurrent, "plmn": c12Plmn, "plmn-one": c12PlmnOne, "amf": c12Amf, "guti": c12Guti, "suci": c12Suci, "nai": c12Nai, "pei": c12Pei, "invalid": c12Invalid, "ident-series": c12Series, "shared-input": c12SharedInput},
 		Exhaustive: func(tier string) (bool, string) {
 			return true, "all PLMNs and all 2^24 AMF identifiers; TMSI, SUCI and PEI spaces sampled"
 		},
@@ -433,6 +528,13 @@ func init() {
 				c.NonTrivial(core.HashU64(1, uint64(a)))
 			}})
 		}
+		us = append(us, core.Unit{Name: "shared-input", Weight: 30, Run: func(c *core.Ctx) {
+			for i := 0; i < c.Pick(6, 40); i++ {
+				k := &core.Case{Oracle: "shared-input", Target: "nasConvert", I: []int64{int64(c.R.Uint64() >> 1), 8, int64(c.Pick(20000, 100000))}}
+				c.Do(k)
+				c.NonTrivial(k.Hash())
+			}
+		}})
 		for u := 0; u < 16; u++ {
 			u := u
 			us = append(us, core.Unit{Name: fmt.Sprintf("series-%02d", u), Weight: 20, Run: func(c *core.Ctx) {
